@@ -91,6 +91,51 @@ CORPUS = [
 ]
 
 
+def _empty_family():
+    """Deterministic (ast, h, w, value): Seq / Grid (and Tupl / ValuedRooms around them) over ELEMENTS WHOSE ENCODING IS THE
+    EMPTY STRING - a zero-length Seq, a Grid with a zero dimension, Rooms on the 1x1 board, the empty Tupl, a Tupl of those -
+    one and two levels deep.  Each value is built next to its term from what the combinators are documented to take (Seq: a
+    list of n items; Grid: rows; Tupl: one run of items per element; Rooms: canonical rooms), so it is also the expected
+    result of the round trip."""
+    room = [[(0, 0)]]
+    E = [
+        (("seq", ("hexint",), 0), lambda: []),
+        (("grid", ("hexint",), (2, 0)), lambda: [[], []]),
+        (("grid", ("hexint",), (0, 3)), lambda: []),
+        (("grid", ("decint",), (0, 0)), lambda: []),
+        (("rooms", False, False), lambda: [list(r) for r in room]),
+        (("rooms", True, False), lambda: [list(r) for r in room]),
+        (("tupl", []), lambda: ()),
+        (("tupl", [("seq", ("hexint",), 0), ("grid", ("hexint",), (2, 0))]), lambda: ([[]], [[[], []]])),
+        (("tupl", [("rooms", False, False), ("fixstr", ""), ("seq", ("decint",), 0)]), lambda: ([[list(r) for r in room]], [], [[]])),
+        (("vrooms", ("seq", ("hexint",), 0), False, False), lambda: ([list(r) for r in room], [[]])),
+    ]
+
+    def over(elem, outer):
+        """(ast, value) of the outer shapes over one (ast, make-value) element"""
+        e, mk = elem
+        out = []
+        for n in (1, 2, 3):
+            out.append((("seq", e, n), (lambda n=n: [mk() for _ in range(n)])))
+        for (gh, gw) in ((1, 1), (1, 2), (2, 1), (2, 2)):
+            out.append((("grid", e, (gh, gw)), (lambda gh=gh, gw=gw: [[mk() for _ in range(gw)] for _ in range(gh)])))
+        if outer:
+            out.append((("grid", e, None), (lambda: [[mk()]])))                       # board dimensions: 1 x 1
+            out.append((("tupl", [("hexint",), ("seq", e, 2), ("hexint",)]), (lambda: ([5], [[mk(), mk()]], [200]))))
+            out.append((("tupl", [("seq", e, 1), ("fixstr", "/"), ("grid", e, (1, 2))]), (lambda: ([[mk()]], [], [[[mk(), mk()]]]))))
+            out.append((("vrooms", ("seq", e, 2), False, False), (lambda: ([list(r) for r in room], [[mk(), mk()]]))))
+        return out
+
+    fam = []
+    for elem in E:
+        for one in over(elem, True):
+            fam.append((one[0], 1, 1, one[1]()))
+            if one[0][0] in ("seq", "grid") and one[0][2] in (2, (1, 2), (2, 1)):
+                for two in over(one, False):
+                    fam.append((two[0], 1, 1, two[1]()))
+    return fam
+
+
 def _dedupe(vs):
     out = []
     for v in vs:
@@ -184,6 +229,12 @@ def correspond(ctx):
     for ast, h, w, v, _exp in CORPUS:
         obj = built(ast)
         if obj is not None:
+            cases.append((ast, obj, sc.comb_sx(obj), h, w, [v]))
+    # deterministic: Seq / Grid over elements whose encoding is the empty string (one and two levels)
+    for ast, h, w, v in _empty_family():
+        obj = built(ast)
+        if obj is not None:
+            ctx.count("empty-encoding-element-term")
             cases.append((ast, obj, sc.comb_sx(obj), h, w, [v]))
     # deterministic: every ordered pair of alternatives of different value kinds, every value of both handed to the pair
     for a, ka in MIXED_LIB:
@@ -473,6 +524,9 @@ def search(ctx, why):
     # 0. the smallest inputs of earlier findings
     for ast, h, w, v, exp in CORPUS:
         _check_term(found, "oneof:mixed-value-kinds", ast, v, exp, h, w)
+    # 0b. Seq / Grid over elements whose encoding is the empty string
+    for ast, h, w, v in _empty_family():
+        _check_term(found, "seq:element-with-empty-encoding", ast, v, v, h, w)
     # 0a. OneOf over alternatives of DIFFERENT VALUE KINDS (scalar / tuple / list / rows) that start with different characters
     _search_mixed(found, rng)
     # 1. Rooms on every board up to 3x3: every partition into connected rooms, canonical and permuted orders
